@@ -14,6 +14,11 @@ Pow(b, e) == IF e = 0 THEN 1 ELSE LET RECURSIVE P(_) P(k) == IF k = 0 THEN 1 ELS
 LevelStart(m, len) == IF m = 1 THEN len ELSE (Pow(m, len) - 1) \div (m - 1)
 IdxIn(alph, t) == (CHOOSE i \in 1..Len(alph) : alph[i] = t) - 1
 
+(* C19: the grammar without its error-recovery rules (those mentioning the 'error' terminal) *)
+HasErr(r, t) == \E i \in 1..Len(r.rhs) : r.rhs[i] = t
+EG(c) == IF c.errTerm > 0 THEN [c EXCEPT !.rules = SelectSeq(c.rules, LAMBDA r : ~HasErr(r, c.errTerm))] ELSE c
+Plain(c) == c.errTerm = 0
+
 InScope(c) == /\ c.genErr = "" /\ c.ran
               /\ Len(c.prec) = 0 /\ Len(c.lookaheads) = 0
               /\ Reduced(c)
@@ -28,20 +33,20 @@ Start(c, e) == c.inputs[e].nt
 Init == /\ ci \in 1..Len(Cases)
         /\ ent \in 1..Len(Cases[ci].inputs)
         /\ w = <<>> /\ lexr = 0 /\ dead = -1
-        /\ IF InScope(Cases[ci])
-           THEN LET c == Cases[ci] nl == NullableSet(c) ch == EarleyInit(c, Start(c, ent), nl) IN
+        /\ IF Cases[ci].genErr = "" /\ Cases[ci].ran
+           THEN LET c == Cases[ci] nl == NullableSet(EG(c)) ch == EarleyInit(EG(c), Start(c, ent), nl) IN
                 /\ chart = ch
                 /\ acc = EarleyAccepts(ch)
-                /\ conf = Conflated(c, Analyse(c))
-                /\ den = IF c.cfg.events /\ c.inputs[ent].eoi THEN Den(c, c.L)[Start(c, ent)] ELSE {}
+                /\ conf = (Plain(c) /\ InScope(c) /\ Conflated(c, Analyse(c)))
+                /\ den = IF c.cfg.events /\ c.inputs[ent].eoi /\ Plain(c) /\ InScope(c) THEN Den(c, c.L)[Start(c, ent)] ELSE {}
            ELSE chart = <<>> /\ acc = FALSE /\ conf = FALSE /\ den = {}
 
 Extend(t) ==
-  /\ InScope(C) /\ Len(w) < C.L
+  /\ C.genErr = "" /\ C.ran /\ Len(w) < C.L /\ (InScope(C) \/ C.errTerm > 0)
   /\ w' = Append(w, t)
   /\ lexr' = lexr * Len(C.alph) + IdxIn(C.alph, t)
   /\ IF dead >= 0 THEN UNCHANGED <<chart, dead, acc>>
-     ELSE LET ch == EarleyStep(C, Start(C, ent), NullableSet(C), chart, t) IN
+     ELSE LET ch == EarleyStep(EG(C), Start(C, ent), NullableSet(EG(C)), chart, t) IN
           /\ chart' = ch
           /\ dead' = IF ch[Len(ch)] = {} THEN Len(w) ELSE -1
           /\ acc' = (acc \/ EarleyAccepts(ch))
@@ -67,15 +72,38 @@ RecordedEvents == C.ev[ent][LevelStart(Len(C.alph), Len(w)) + lexr + 1]
 Phrases == { p \in den : p.w = w }
 Flat(ev) == [k \in 1..(3 * Len(ev)) |-> ev[((k - 1) \div 3) + 1][((k - 1) % 3) + 1]]
 EventsConform ==
-  (InScope(C) /\ ~conf /\ C.cfg.events /\ C.inputs[ent].eoi /\ Cardinality(Phrases) = 1) =>
+  (InScope(C) /\ Plain(C) /\ ~conf /\ C.cfg.events /\ C.inputs[ent].eoi /\ Cardinality(Phrases) = 1) =>
      RecordedEvents = Flat((CHOOSE p \in Phrases : TRUE).ev)
+(* C19: error recovery.  er[input][rank]: the (offset, endoffset) pairs passed to the error handler; baseEv: the
+   listener calls of the same grammar generated WITHOUT its recovery rules, for the same string. *)
+Rank == LevelStart(Len(C.alph), Len(w)) + lexr + 1
+Recovering(c) == c.errTerm > 0 /\ c.genErr = "" /\ c.ran /\ c.hasBase
+Errs == C.er[ent][Rank]
+IsSentence == IF C.inputs[ent].eoi THEN dead < 0 /\ EarleyAccepts(chart) ELSE acc
+(* on sentences of the language: no error is reported and events and result equal the non-recovering parser's *)
+RecoveryTransparent ==
+  (Recovering(C) /\ InScope(C) /\ C.inputs[ent].eoi /\ IsSentence) =>
+     /\ Recorded = Accept
+     /\ Len(Errs) = 0
+     /\ RecordedEvents = C.baseEv[ent][Rank]
+(* errors are reported with non-decreasing offsets inside the input (tokens 'x ' : the text has 2n bytes) *)
+ErrorsMonotoneInside ==
+  Recovering(C) =>
+     /\ Len(Errs) % 2 = 0
+     /\ \A k \in 1..(Len(Errs) \div 2) :
+           /\ 0 <= Errs[2*k - 1] /\ Errs[2*k - 1] <= Errs[2*k] /\ Errs[2*k] <= 2 * Len(w)
+           /\ (k > 1 => Errs[2*k - 3] <= Errs[2*k - 1])
+     /\ (Recorded[1] = 0 => (0 <= Recorded[2] /\ Recorded[2] <= Recorded[3] /\ Recorded[3] <= 2 * Len(w)))
+(* a non-sentence is never accepted silently: either an error was reported or the parse fails *)
+NonSentenceReported ==
+  (Recovering(C) /\ InScope(C) /\ C.inputs[ent].eoi /\ ~IsSentence) => (Recorded[1] = 0 \/ Len(Errs) > 0)
 (* the generator produced a parser that builds, unless it reported a conflict *)
 Generates == C.genErr = "" \/ C.conflict
 NoCrash == C.ran => Len(C.bad) = 0
-VerdictConforms == (InScope(C) /\ ~conf) => Recorded = Expected
+VerdictConforms == (InScope(C) /\ Plain(C) /\ ~conf) => Recorded = Expected
 (* C07: with lalr(k) the parser may report an error before the offending token (the lookahead is read ahead),
    so only the verdict is compared *)
-AcceptConforms == (InScope(C) /\ ~conf) => Recorded[1] = Expected[1]
+AcceptConforms == (InScope(C) /\ Plain(C) /\ ~conf) => Recorded[1] = Expected[1]
 (* known finding 9: where Textmapper conflates a final state with an inner state *)
 VerdictConformsConflated == (InScope(C) /\ conf) => Recorded = Expected
 =============================================================================
